@@ -248,19 +248,25 @@ theorem getOperation_reloc (h : Reloc c c' k) (endO : Nat) : ∀ (f off : Nat) (
 
 /-! ### the scanner's result, moved by `k` -/
 
+/-- no variable operands on either side -/
+abbrev NoV : VarRef → VarRef → Prop := fun _ _ => False
+
 mutual
-inductive RelOperand (k n : Nat) : Operand R → Operand R → Prop
-  | num (x : Num R) : RelOperand k n (.num x) (.num x)
-  | text (off len : Nat) : off + len ≤ n → RelOperand k n (.text off len) (.text (k + off) len)
-  | sub (a b : List (Item R)) : RelItems k n a b → RelOperand k n (.sub a) (.sub b)
-inductive RelItems (k n : Nat) : List (Item R) → List (Item R) → Prop
-  | nil : RelItems k n [] []
+/-- `Pv v v'`: what is known about a variable operand and its relocated copy -/
+inductive RelOperand (Pv : VarRef → VarRef → Prop) (k n : Nat) : Operand R → Operand R → Prop
+  | num (x : Num R) : RelOperand Pv k n (.num x) (.num x)
+  | text (off len : Nat) : off + len ≤ n → RelOperand Pv k n (.text off len) (.text (k + off) len)
+  | var (v v' : VarRef) : Pv v v' → RelOperand Pv k n (.var v) (.var v')
+  | sub (a b : List (Item R)) : RelItems Pv k n a b → RelOperand Pv k n (.sub a) (.sub b)
+inductive RelItems (Pv : VarRef → VarRef → Prop) (k n : Nat) : List (Item R) → List (Item R) → Prop
+  | nil : RelItems Pv k n [] []
   | cons (x y : Operand R) (o : Op) (a b : List (Item R)) :
-      RelOperand k n x y → RelItems k n a b → RelItems k n ((x, o) :: a) ((y, o) :: b)
+      RelOperand Pv k n x y → RelItems Pv k n a b → RelItems Pv k n ((x, o) :: a) ((y, o) :: b)
 end
 
-theorem RelItems.snoc {k n : Nat} {x y : Operand R} (o : Op) (hxy : RelOperand k n x y) :
-    ∀ (a b : List (Item R)), RelItems k n a b → RelItems k n (a ++ [(x, o)]) (b ++ [(y, o)]) := by
+theorem RelItems.snoc {Pv : VarRef → VarRef → Prop} {k n : Nat} {x y : Operand R} (o : Op)
+    (hxy : RelOperand Pv k n x y) :
+    ∀ (a b : List (Item R)), RelItems Pv k n a b → RelItems Pv k n (a ++ [(x, o)]) (b ++ [(y, o)]) := by
   intro a
   induction a with
   | nil => intro b hab; cases hab; exact .cons _ _ _ _ _ hxy .nil
@@ -269,31 +275,37 @@ theorem RelItems.snoc {k n : Nat} {x y : Operand R} (o : Op) (hxy : RelOperand k
     cases hab with
     | cons x1 y1 o1 a1 b1 h1 h2 => exact .cons _ _ _ _ _ h1 (ih _ h2)
 
-theorem RelItems.isEmpty {k n : Nat} {a b : List (Item R)} (h : RelItems k n a b) :
-    a.isEmpty = b.isEmpty := by
+theorem RelItems.isEmpty {Pv : VarRef → VarRef → Prop} {k n : Nat} {a b : List (Item R)}
+    (h : RelItems Pv k n a b) : a.isEmpty = b.isEmpty := by
   cases h <;> rfl
 
 /-- result of `parseValue` -/
-def RelOpt (k n : Nat) (r r' : Option (List (Item R))) : Prop :=
-  (r = none ∧ r' = none) ∨ ∃ l l', r = some l ∧ r' = some l' ∧ RelItems k n l l'
+def RelOpt (Pv : VarRef → VarRef → Prop) (k n : Nat) (r r' : Option (List (Item R))) : Prop :=
+  (r = none ∧ r' = none) ∨ ∃ l l', r = some l ∧ r' = some l' ∧ RelItems Pv k n l l'
 
 theorem safe_ok {α : Type} {x : Except Fault α} {P : α → Prop} {a : α} (hs : Safe x P) (hx : x = .ok a) :
     P a := by
   rw [hx] at hs; exact hs
 
-theorem scan_reloc (cfg cfg' : ScanCfg R) (hrn : cfg'.readNum = cfg.readNum) (h : Reloc c c' k)
-    (hno : ∀ (i x : Nat), c[i]? = some x → x ≠ cBOpen) : ∀ f,
+/-- the variable operand the scanner makes of `{…}` at `off … e` -/
+def scanVar (cfg : ScanCfg R) (off e : Nat) : VarRef :=
+  ⟨off + 5, (e - (off + 5)) % 2 ^ variableLengthBits, (cfg.loopVar (off + 5)).1, (cfg.loopVar (off + 5)).2⟩
+
+theorem scan_relocV (cfg cfg' : ScanCfg R) (hrn : cfg'.readNum = cfg.readNum) (h : Reloc c c' k)
+    (Pv : VarRef → VarRef → Prop)
+    (hvar : ∀ off e, c[off]? = some cBOpen → off + 5 < e → c[e]? = some 125 →
+      Pv (scanVar cfg off e) (scanVar cfg' (k + off) (k + e))) : ∀ f,
     (∀ off endO items, endO < c.length → parseExpressions cfg c f off endO = .ok items →
       ∃ items', parseExpressions cfg' c' f (k + off) (k + endO) = .ok items' ∧
-        RelItems k c.length items items') ∧
-    (∀ endO off exprs exprs' lastOp items, endO < c.length → RelItems k c.length exprs exprs' →
+        RelItems Pv k c.length items items') ∧
+    (∀ endO off exprs exprs' lastOp items, endO < c.length → RelItems Pv k c.length exprs exprs' →
       parseLoop cfg c f endO off exprs lastOp = .ok items →
       ∃ items', parseLoop cfg' c' f (k + endO) (k + off) exprs' lastOp = .ok items' ∧
-        RelItems k c.length items items') ∧
-    (∀ exprs exprs' oper lastOp off0 end0 r, end0 < c.length → RelItems k c.length exprs exprs' →
+        RelItems Pv k c.length items items') ∧
+    (∀ exprs exprs' oper lastOp off0 end0 r, end0 < c.length → RelItems Pv k c.length exprs exprs' →
       parseValue cfg c f exprs oper lastOp off0 end0 = .ok r →
       ∃ r', parseValue cfg' c' f exprs' oper lastOp (k + off0) (k + end0) = .ok r' ∧
-        RelOpt k c.length r r') := by
+        RelOpt Pv k c.length r r') := by
   intro f
   induction f with
   | zero =>
@@ -379,46 +391,92 @@ theorem scan_reloc (cfg cfg' : ScanCfg R) (hrn : cfg'.readNum = cfg.readNum) (h 
             cases hse : sub.isEmpty
             · exact Or.inr ⟨_, _, by simp, by simp, hrel⟩
             · exact Or.inl ⟨by simp, by simp⟩
-        · have hbo : ch ≠ cBOpen := hno off ch ((rd_ok_iff _ _ _).mp hch)
-          simp only [hpo, hbo, if_false] at hp ⊢
-          rw [hrn, h.slice off (endO - off) (by omega)]
-          cases hnum : cfg.readNum ((c.drop off).take (endO - off)) with
-          | some nn =>
-            simp only [hnum, Except.ok.injEq] at hp ⊢
-            subst hp
-            exact ⟨_, rfl, Or.inr ⟨_, _, rfl, rfl, RelItems.snoc oper (.num nn) _ _ hex⟩⟩
-          | none =>
-            simp only [hnum] at hp ⊢
-            by_cases heq : (lastOp.isEq || oper.isEq) = true
-            · simp only [heq, if_true, Except.ok.injEq] at hp ⊢
-              subst hp
-              exact ⟨_, rfl, Or.inr ⟨_, _, rfl, rfl,
-                RelItems.snoc oper (.text off (endO - off) (by omega)) _ _ hex⟩⟩
-            · simp only [heq, Bool.false_eq_true, if_false, Except.ok.injEq] at hp ⊢
+        · by_cases hbo : ch = cBOpen
+          · have hpo' : ¬ (cBOpen = cPOpen) := by decide
+            subst hbo
+            simp only [hpo', if_false, if_true] at hp ⊢
+            by_cases hfl : endO - off > W1.variableFullLength
+            · simp only [hfl, if_true] at hp ⊢
+              have hfl' : endO - off > 6 := hfl
+              obtain ⟨last, hlast, hp⟩ := bind_ok hp
+              have hlast' : rd c' (k + endO - W1.inLineSuffixLength) = .ok last := by
+                rw [show k + endO - W1.inLineSuffixLength = k + (endO - W1.inLineSuffixLength) by
+                  simp only [show W1.inLineSuffixLength = 1 by decide]; omega]
+                exact rdOk h hlast
+              simp only [hlast']
+              by_cases hl : last = W1.inLineLastChar
+              · simp only [hl, if_true] at hp ⊢
+                simp only [Except.ok.injEq] at hp
+                subst hp
+                refine ⟨_, rfl, Or.inr ⟨_, _, rfl, rfl, RelItems.snoc oper ?_ _ _ hex⟩⟩
+                have hv := hvar off (endO - 1) ((rd_ok_iff _ _ _).mp hch) (by omega)
+                  (by rw [hl] at hlast; exact (rd_ok_iff _ _ _).mp hlast)
+                have e1 : k + off + W1.variablePrefixLength = k + off + 5 := rfl
+                have e2 : off + W1.variablePrefixLength = off + 5 := rfl
+                have e3 : k + endO - W1.inLineSuffixLength - (k + off + 5) = endO - 1 - (off + 5) := by
+                  simp only [show W1.inLineSuffixLength = 1 by decide]; omega
+                have e4 : endO - W1.inLineSuffixLength - (off + 5) = endO - 1 - (off + 5) := rfl
+                have e5 : k + (endO - 1) - (k + off + 5) = endO - 1 - (off + 5) := by omega
+                simp only [scanVar, e5] at hv
+                simp only [e1, e2, e3, e4]
+                exact .var _ _ hv
+              · simp only [hl, if_false] at hp ⊢
+                simp only [Except.ok.injEq] at hp
+                subst hp
+                exact ⟨_, rfl, Or.inl ⟨rfl, rfl⟩⟩
+            · simp only [hfl, if_false] at hp ⊢
+              simp only [Except.ok.injEq] at hp
               subst hp
               exact ⟨_, rfl, Or.inl ⟨rfl, rfl⟩⟩
+          · simp only [hpo, hbo, if_false] at hp ⊢
+            rw [hrn, h.slice off (endO - off) (by omega)]
+            cases hnum : cfg.readNum ((c.drop off).take (endO - off)) with
+            | some nn =>
+              simp only [hnum, Except.ok.injEq] at hp ⊢
+              subst hp
+              exact ⟨_, rfl, Or.inr ⟨_, _, rfl, rfl, RelItems.snoc oper (.num nn) _ _ hex⟩⟩
+            | none =>
+              simp only [hnum] at hp ⊢
+              by_cases heq : (lastOp.isEq || oper.isEq) = true
+              · simp only [heq, if_true, Except.ok.injEq] at hp ⊢
+                subst hp
+                exact ⟨_, rfl, Or.inr ⟨_, _, rfl, rfl,
+                  RelItems.snoc oper (.text off (endO - off) (by omega)) _ _ hex⟩⟩
+              · simp only [heq, Bool.false_eq_true, if_false, Except.ok.injEq] at hp ⊢
+                subst hp
+                exact ⟨_, rfl, Or.inl ⟨rfl, rfl⟩⟩
       · simp only [hlt, if_false, Except.ok.injEq] at hp
         subst hp
         simp only [show ¬ k + off < k + endO by omega, if_false]
         exact ⟨_, rfl, Or.inl ⟨rfl, rfl⟩⟩
 
+theorem parseTop_relocV (cfg cfg' : ScanCfg R) (hrn : cfg'.readNum = cfg.readNum) (h : Reloc c c' k)
+    (Pv : VarRef → VarRef → Prop)
+    (hvar : ∀ off e, c[off]? = some cBOpen → off + 5 < e → c[e]? = some 125 →
+      Pv (scanVar cfg off e) (scanVar cfg' (k + off) (k + e)))
+    (off endO : Nat) (he : endO < c.length)
+    (items : List (Item R)) (hp : parseTop cfg c off endO = .ok items) :
+    ∃ items', parseTop cfg' c' (k + off) (k + endO) = .ok items' ∧ RelItems Pv k c.length items items' := by
+  unfold parseTop at hp ⊢
+  rw [Nat.add_sub_add_left]
+  exact (scan_relocV cfg cfg' hrn h Pv hvar _).1 off endO items he hp
 
+/-- constants only: no `{` in the expression -/
 theorem parseTop_reloc (cfg cfg' : ScanCfg R) (hrn : cfg'.readNum = cfg.readNum) (h : Reloc c c' k)
     (hno : ∀ (i x : Nat), c[i]? = some x → x ≠ cBOpen) (off endO : Nat) (he : endO < c.length)
     (items : List (Item R)) (hp : parseTop cfg c off endO = .ok items) :
-    ∃ items', parseTop cfg' c' (k + off) (k + endO) = .ok items' ∧ RelItems k c.length items items' := by
-  unfold parseTop at hp ⊢
-  rw [Nat.add_sub_add_left]
-  exact (scan_reloc cfg cfg' hrn h hno _).1 off endO items he hp
+    ∃ items', parseTop cfg' c' (k + off) (k + endO) = .ok items' ∧ RelItems NoV k c.length items items' :=
+  parseTop_relocV cfg cfg' hrn h NoV (fun off e h1 _ _ => absurd rfl (hno off _ h1)) off endO he items hp
 
 /-! ### evaluation of relocated lists -/
 
 section
 variable [RealLike R]
 
-inductive RelVal (k n : Nat) : Val R → Val R → Prop
-  | num (x : Num R) : RelVal k n (.num x) (.num x)
-  | text (off len : Nat) : off + len ≤ n → RelVal k n (.text off len) (.text (k + off) len)
+inductive RelVal (Pv : VarRef → VarRef → Prop) (k n : Nat) : Val R → Val R → Prop
+  | num (x : Num R) : RelVal Pv k n (.num x) (.num x)
+  | text (off len : Nat) : off + len ≤ n → RelVal Pv k n (.text off len) (.text (k + off) len)
+  | var (v v' : VarRef) : Pv v v' → RelVal Pv k n (.var v) (.var v')
 
 /-- the two environments: same number reader, the second content holds the first `k` units later -/
 structure RelEnv (env env' : Env R) (k : Nat) : Prop where
@@ -426,32 +484,42 @@ structure RelEnv (env env' : Env R) (k : Nat) : Prop where
   slice : ∀ off m, off + m ≤ env.content.length →
     (env'.content.drop (k + off)).take m = (env.content.drop off).take m
 
-theorem eqSide_reloc {env env' : Env R} {k : Nat} (he : RelEnv env env' k) {v v' : Val R}
-    (hv : RelVal k env.content.length v v') : eqSide env' v' = eqSide env v := by
+/-- related variables have the same value -/
+def RelLookup (Pv : VarRef → VarRef → Prop) (env env' : Env R) : Prop :=
+  ∀ v v', Pv v v' → env'.lookup v' = env.lookup v
+
+theorem setNumber_env {env env' : Env R} (h : env'.readNum = env.readNum) (x : VarVal R) :
+    x.setNumber env' = x.setNumber env := by
+  cases x <;> simp [VarVal.setNumber, h]
+
+theorem eqSide_reloc {Pv : VarRef → VarRef → Prop} {env env' : Env R} {k : Nat} (he : RelEnv env env' k)
+    (hlk : RelLookup Pv env env') {v v' : Val R}
+    (hv : RelVal Pv k env.content.length v v') : eqSide env' v' = eqSide env v := by
   cases hv with
   | num x => rfl
   | text off len hl => simp [eqSide, he.slice off len hl]
+  | var a b hab => simp only [eqSide, hlk a b hab, setNumber_env he.readNum]
 
-theorem eqSide_novar {env : Env R} {k n : Nat} {v v' : Val R} (hv : RelVal k n v v') :
-    (∃ x, eqSide env v = some (.number x)) ∨ (∃ s, eqSide env v = some (.chars s none)) := by
-  cases hv with
-  | num x => exact Or.inl ⟨x, rfl⟩
-  | text off len hl => exact Or.inr ⟨_, rfl⟩
+theorem forceNumber_env {env env' : Env R} (h : env'.readNum = env.readNum) (s : EqSide R) :
+    s.forceNumber env' = s.forceNumber env := by
+  cases s with
+  | number n => rfl
+  | chars s v => cases v <;> simp [EqSide.forceNumber, setNumber_env h]
 
-theorem isEqual_reloc {env env' : Env R} {k : Nat} (he : RelEnv env env' k) {l l' r r' : Val R}
-    (hl : RelVal k env.content.length l l') (hr : RelVal k env.content.length r r') :
+theorem isEqual_reloc {Pv : VarRef → VarRef → Prop} {env env' : Env R} {k : Nat} (he : RelEnv env env' k)
+    (hlk : RelLookup Pv env env') {l l' r r' : Val R}
+    (hl : RelVal Pv k env.content.length l l') (hr : RelVal Pv k env.content.length r r') :
     isEqual env' l' r' = isEqual env l r := by
   unfold isEqual
-  rw [eqSide_reloc he hl, eqSide_reloc he hr]
-  rcases eqSide_novar (env := env) hl with ⟨x, hx⟩ | ⟨s, hs⟩ <;>
-  rcases eqSide_novar (env := env) hr with ⟨y, hy⟩ | ⟨t, ht⟩ <;>
-  simp [*, EqSide.forceNumber]
+  rw [eqSide_reloc he hlk hl, eqSide_reloc he hlk hr]
+  simp only [forceNumber_env he.readNum]
 
-theorem applyOp_reloc {env env' : Env R} {k : Nat} (he : RelEnv env env' k) (op : Op) {l l' r r' : Val R}
-    (hl : RelVal k env.content.length l l') (hr : RelVal k env.content.length r r') :
+theorem applyOp_reloc {Pv : VarRef → VarRef → Prop} {env env' : Env R} {k : Nat} (he : RelEnv env env' k)
+    (hlk : RelLookup Pv env env') (op : Op) {l l' r r' : Val R}
+    (hl : RelVal Pv k env.content.length l l') (hr : RelVal Pv k env.content.length r r') :
     applyOp env' op l' r' = applyOp env op l r := by
   unfold applyOp
-  have hi := isEqual_reloc he hl hr
+  have hi := isEqual_reloc he hlk hl hr
   cases hl <;> cases hr <;> cases op <;> simp [applyChk, hi]
 
 theorem applyOp_num (env : Env R) (op : Op) (l r v : Val R) (h : applyOp env op l r = some v) :
@@ -478,28 +546,55 @@ theorem applyOp_num (env : Env R) (op : Op) (l r v : Val R) (h : applyOp env op 
     · cases hc
 
 
-/-- results of `evaluate` / `loop`: a number (never a text) and the rest of the list -/
-def RelCur (k n : Nat) (r r' : Option (Cursor R)) : Prop :=
+/-- results of `evaluate` / `loop`: a number (never a text or a variable) and the rest of the list -/
+def RelCur (Pv : VarRef → VarRef → Prop) (k n : Nat) (r r' : Option (Cursor R)) : Prop :=
   (r = none ∧ r' = none) ∨
-  ∃ x o rest rest', r = some (.num x, o, rest) ∧ r' = some (.num x, o, rest') ∧ RelItems k n rest rest'
+  ∃ x o rest rest', r = some (.num x, o, rest) ∧ r' = some (.num x, o, rest') ∧ RelItems Pv k n rest rest'
 
-def RelOV (k n : Nat) (r r' : Option (Val R)) : Prop :=
-  (r = none ∧ r' = none) ∨ ∃ v v', r = some v ∧ r' = some v' ∧ RelVal k n v v'
+/-- results of `GetExpressionValue`: related values; a variable is handed on only to `==` / `!=` -/
+def RelOV (Pv : VarRef → VarRef → Prop) (k n : Nat) (a : Op) (r r' : Option (Val R)) : Prop :=
+  (r = none ∧ r' = none) ∨
+  ∃ v v', r = some v ∧ r' = some v' ∧ RelVal Pv k n v v' ∧ (∀ w, v = .var w → a.isEq = true)
 
-theorem eval_reloc {env env' : Env R} {k : Nat} (he : RelEnv env env' k) (chk : Bool) : ∀ f,
-    (∀ prev items items', RelItems k env.content.length items items' →
-      RelCur k env.content.length (evaluate env chk f prev items) (evaluate env' chk f prev items')) ∧
-    (∀ prev left left' op rest rest', RelVal k env.content.length left left' →
-      RelItems k env.content.length rest rest' →
-      RelCur k env.content.length (loop env chk f prev left op rest) (loop env' chk f prev left' op rest')) ∧
-    (∀ x x' a b, RelOperand k env.content.length x x' →
-      RelOV k env.content.length (getVal env chk f x a b) (getVal env' chk f x' a b)) := by
+theorem getVar_reloc {Pv : VarRef → VarRef → Prop} {env env' : Env R} {k : Nat} (he : RelEnv env env' k)
+    (hlk : RelLookup Pv env env') (v v' : VarRef) (hv : Pv v v') (a b : Op) :
+    RelOV Pv k env.content.length a (getVar env v a b) (getVar env' v' a b) := by
+  unfold getVar
+  by_cases ha : a.isEq = true
+  · simp only [ha, if_true]
+    exact Or.inr ⟨_, _, rfl, rfl, .var _ _ hv, fun _ _ => ha⟩
+  · simp only [ha, Bool.false_eq_true, if_false, hlk v v' hv]
+    have hs : (env.lookup v).bind (VarVal.setNumber env') = (env.lookup v).bind (VarVal.setNumber env) := by
+      cases env.lookup v with
+      | none => rfl
+      | some x => simp only [Option.bind, setNumber_env he.readNum]
+    rw [hs]
+    cases (env.lookup v).bind (VarVal.setNumber env) with
+    | some n => exact Or.inr ⟨_, _, rfl, rfl, .num n, fun w hw => by cases hw⟩
+    | none =>
+      simp only []
+      by_cases hc : a = .noOp ∧ b = .noOp
+      · simp only [hc, and_self, if_true]
+        exact Or.inr ⟨_, _, rfl, rfl, .num _, fun w hw => by cases hw⟩
+      · simp only [hc, if_false]
+        exact Or.inl ⟨rfl, rfl⟩
+
+theorem eval_reloc {Pv : VarRef → VarRef → Prop} {env env' : Env R} {k : Nat} (he : RelEnv env env' k)
+    (hlk : RelLookup Pv env env') (chk : Bool) : ∀ f,
+    (∀ prev items items', RelItems Pv k env.content.length items items' →
+      RelCur Pv k env.content.length (evaluate env chk f prev items) (evaluate env' chk f prev items')) ∧
+    (∀ prev left left' op rest rest', RelVal Pv k env.content.length left left' →
+      (∀ w, left = .var w → op.isEq = true) →
+      RelItems Pv k env.content.length rest rest' →
+      RelCur Pv k env.content.length (loop env chk f prev left op rest) (loop env' chk f prev left' op rest')) ∧
+    (∀ x x' a b, RelOperand Pv k env.content.length x x' →
+      RelOV Pv k env.content.length a (getVal env chk f x a b) (getVal env' chk f x' a b)) := by
   intro f
   induction f with
   | zero =>
     refine ⟨?_, ?_, ?_⟩
     · intro prev items items' _; exact Or.inl ⟨by simp [evaluate], by simp [evaluate]⟩
-    · intro prev left left' op rest rest' _ _; exact Or.inl ⟨by simp [loop], by simp [loop]⟩
+    · intro prev left left' op rest rest' _ _ _; exact Or.inl ⟨by simp [loop], by simp [loop]⟩
     · intro x x' a b _; exact Or.inl ⟨by simp [getVal], by simp [getVal]⟩
   | succ f ih =>
     obtain ⟨ihE, ihL, ihV⟩ := ih
@@ -509,16 +604,20 @@ theorem eval_reloc {env env' : Env R} {k : Nat} (he : RelEnv env env' k) (chk : 
       | nil => exact Or.inl ⟨by simp [evaluate], by simp [evaluate]⟩
       | cons x y o a b hxy hab =>
         simp only [evaluate]
-        rcases ihV x y o o hxy with ⟨h1, h2⟩ | ⟨v, v', h1, h2, hv⟩
+        rcases ihV x y o o hxy with ⟨h1, h2⟩ | ⟨v, v', h1, h2, hv, hw⟩
         · rw [h1, h2]; exact Or.inl ⟨rfl, rfl⟩
-        · rw [h1, h2]; exact ihL prev v v' o a b hv hab
-    · intro prev left left' op rest rest' hl hrest
+        · rw [h1, h2]; exact ihL prev v v' o a b hv hw hab
+    · intro prev left left' op rest rest' hl hlw hrest
       simp only [loop]
       by_cases hop : op = .noOp
       · simp only [hop, if_true]
         cases hl with
         | num x => exact Or.inr ⟨x, .noOp, rest, rest', by simp [Val.isText], by simp [Val.isText], hrest⟩
         | text off len hb => exact Or.inl ⟨by simp [Val.isText], by simp [Val.isText]⟩
+        | var a b hab =>
+          have := hlw a rfl
+          rw [hop] at this
+          cases this
       · simp only [hop, if_false]
         cases hrest with
         | nil => exact Or.inl ⟨rfl, rfl⟩
@@ -526,10 +625,10 @@ theorem eval_reloc {env env' : Env R} {k : Nat} (he : RelEnv env env' k) (chk : 
           simp only []
           by_cases hrk : op.rank ≥ o'.rank
           · simp only [hrk, if_true]
-            rcases ihV x y op o' hxy with ⟨h1, h2⟩ | ⟨v, v', h1, h2, hv⟩
+            rcases ihV x y op o' hxy with ⟨h1, h2⟩ | ⟨v, v', h1, h2, hv, _⟩
             · rw [h1, h2]; exact Or.inl ⟨rfl, rfl⟩
             · rw [h1, h2]
-              simp only [applyOp_reloc he op hl hv]
+              simp only [applyOp_reloc he hlk op hl hv]
               cases hap : applyOp env op left v with
               | none => exact Or.inl ⟨rfl, rfl⟩
               | some w =>
@@ -537,14 +636,15 @@ theorem eval_reloc {env env' : Env R} {k : Nat} (he : RelEnv env env' k) (chk : 
                 subst hz
                 simp only []
                 by_cases hpr : prev.rank < o'.rank
-                · simp only [hpr, if_true]; exact ihL prev _ _ o' a b (.num z) hab
+                · simp only [hpr, if_true]
+                  exact ihL prev _ _ o' a b (.num z) (fun w hw => by cases hw) hab
                 · simp only [hpr, if_false]; exact Or.inr ⟨z, o', a, b, rfl, rfl, hab⟩
           · simp only [hrk, if_false]
             rcases ihE op ((x, o') :: a) ((y, o') :: b) (.cons _ _ _ _ _ hxy hab) with
               ⟨h1, h2⟩ | ⟨z, o'', r1, r2, h1, h2, hr12⟩
             · rw [h1, h2]; exact Or.inl ⟨rfl, rfl⟩
             · rw [h1, h2]
-              simp only [applyOp_reloc he op hl (.num z)]
+              simp only [applyOp_reloc he hlk op hl (.num z)]
               cases hap : applyOp env op left (.num z) with
               | none => exact Or.inl ⟨rfl, rfl⟩
               | some w =>
@@ -555,24 +655,29 @@ theorem eval_reloc {env env' : Env R} {k : Nat} (he : RelEnv env env' k) (chk : 
                 | true =>
                   simp only [if_true]
                   by_cases hpr : prev.rank < o''.rank
-                  · simp only [hpr, if_true]; exact ihL prev _ _ o'' r1 r2 (.num z2) hr12
+                  · simp only [hpr, if_true]
+                    exact ihL prev _ _ o'' r1 r2 (.num z2) (fun w hw => by cases hw) hr12
                   · simp only [hpr, if_false]; exact Or.inr ⟨z2, o'', r1, r2, rfl, rfl, hr12⟩
                 | false =>
                   simp only [Bool.false_eq_true, if_false]
-                  exact ihL prev _ _ o'' r1 r2 (.num z2) hr12
+                  exact ihL prev _ _ o'' r1 r2 (.num z2) (fun w hw => by cases hw) hr12
     · intro x x' a b hxx
       cases hxx with
-      | num n => exact Or.inr ⟨_, _, by simp [getVal], by simp [getVal], .num n⟩
-      | text off len hb => exact Or.inr ⟨_, _, by simp [getVal], by simp [getVal], .text off len hb⟩
+      | num n => exact Or.inr ⟨_, _, by simp [getVal], by simp [getVal], .num n, fun w hw => by cases hw⟩
+      | text off len hb =>
+        exact Or.inr ⟨_, _, by simp [getVal], by simp [getVal], .text off len hb, fun w hw => by cases hw⟩
+      | var v v' hv =>
+        simp only [getVal]
+        exact getVar_reloc he hlk v v' hv a b
       | sub l l' hll =>
         simp only [getVal]
         rcases ihE .noOp l l' hll with ⟨h1, h2⟩ | ⟨z, o, r1, r2, h1, h2, _⟩
         · rw [h1, h2]; exact Or.inl ⟨rfl, rfl⟩
-        · rw [h1, h2]; exact Or.inr ⟨_, _, rfl, rfl, .num z⟩
+        · rw [h1, h2]; exact Or.inr ⟨_, _, rfl, rfl, .num z, fun w hw => by cases hw⟩
 
-theorem size_reloc {k n : Nat} : ∀ m,
-    (∀ (a b : List (Item R)), sizeItems a ≤ m → RelItems k n a b → sizeItems b = sizeItems a) ∧
-    (∀ (x y : Operand R), x.size ≤ m → RelOperand k n x y → y.size = x.size) := by
+theorem size_reloc {Pv : VarRef → VarRef → Prop} {k n : Nat} : ∀ m,
+    (∀ (a b : List (Item R)), sizeItems a ≤ m → RelItems Pv k n a b → sizeItems b = sizeItems a) ∧
+    (∀ (x y : Operand R), x.size ≤ m → RelOperand Pv k n x y → y.size = x.size) := by
   intro m
   induction m with
   | zero =>
@@ -585,6 +690,7 @@ theorem size_reloc {k n : Nat} : ∀ m,
       cases hxy with
       | num _ => rfl
       | text _ _ _ => rfl
+      | var _ _ _ => rfl
       | sub a b _ => simp [Operand.size] at hs
   | succ m ih =>
     refine ⟨?_, ?_⟩
@@ -598,22 +704,26 @@ theorem size_reloc {k n : Nat} : ∀ m,
       cases hxy with
       | num _ => rfl
       | text _ _ _ => rfl
+      | var _ _ _ => rfl
       | sub a b hab =>
         simp only [Operand.size] at hs ⊢
         rw [ih.1 a b (by omega) hab]
 
 /-- the evaluator gives the same number on the relocated list and content; it never returns a
-text -/
-theorem evaluateTop_reloc {env env' : Env R} {k : Nat} (he : RelEnv env env' k) (chk : Bool)
-    (items items' : List (Item R)) (hrel : RelItems k env.content.length items items') :
+text or a variable -/
+theorem evaluateTop_reloc {Pv : VarRef → VarRef → Prop} {env env' : Env R} {k : Nat} (he : RelEnv env env' k)
+    (hlk : RelLookup Pv env env') (chk : Bool)
+    (items items' : List (Item R)) (hrel : RelItems Pv k env.content.length items items') :
     evaluateTop env' chk items' = evaluateTop env chk items ∧
     (∀ v, evaluateTop env chk items = some v → ∃ x, v = .num x) := by
   unfold evaluateTop fuelFor
   rw [(size_reloc (sizeItems items)).1 items items' (Nat.le_refl _) hrel]
-  rcases (eval_reloc he chk (2 * sizeItems items + 2)).1 .noOp items items' hrel with
+  rcases (eval_reloc he hlk chk (2 * sizeItems items + 2)).1 .noOp items items' hrel with
     ⟨h1, h2⟩ | ⟨z, o, r1, r2, h1, h2, _⟩
   · rw [h1, h2]; simp
   · rw [h1, h2]; simp
+
+theorem relLookup_noV (env env' : Env R) : RelLookup NoV env env' := fun _ _ h => h.elim
 
 end
 
